@@ -11,7 +11,7 @@ ASSUMPTIONS = [
 ]
 RULE = ('history suite: random histories (quick 300 x 25 calls, every 25th one 450 calls long) over one long-lived client and one ECU: write/read data identifiers (fixed-length, read-all and default codecs, '
         'values incl. all-zero), write/read memory (all 8 address and size widths, explicit / configured / automatic, the same MemoryLocation object reused and re-pointed), downloads '
-        'split into random block lengths (counter wrap past 0xFF in long transfers), session / tester-present / reset / security / routine calls, configuration changes between calls '
+        'split into random block lengths, uploads pulled block by block (counter wrap past 0xFF in long transfers), session / tester-present / reset / security / routine calls, configuration changes between calls '
         '(set_config of data_identifiers, server_address_format, server_memorysize_format, tolerate_zero_padding) and failing calls (unknown identifiers, wrong lengths, never-written '
         'records, wrong sequence counters, exits without transfer). Every frame the real client sends goes to the Lean ECU behind the line protocol; the same call goes to the Lean '
         'client model with its own ECU copy. Compared per call: outcome + decoded data; at the end: both ECU states. P_spec on the implementation: a Python shadow store updated only by '
@@ -201,7 +201,7 @@ def run_history(s, ctx, hseed, nsteps, force_zero_did=False, wrap=False):
                 op = steps.pop(0)
             else:
                 r = rng.random()
-                if wrap and xfer is not None and xfer['sent'] < xfer['total'] and rng.random() < 0.9:
+                if wrap and xfer is not None and not xfer.get('up') and xfer['sent'] < xfer['total'] and rng.random() < 0.9:
                     op = ('block',)
                 elif r < 0.10:
                     op = ('config',)
@@ -225,9 +225,13 @@ def run_history(s, ctx, hseed, nsteps, force_zero_did=False, wrap=False):
                     op = ('wmem',)
                 elif r < 0.74:
                     op = ('rmem',)
+                elif r < 0.77 and xfer is None:
+                    op = ('upload',)
                 elif r < 0.80 and xfer is None:
                     op = ('download',)
-                elif r < 0.93 and xfer is not None:
+                elif xfer is not None and xfer.get('up') and r < 0.93:
+                    op = ('pull',) if rng.random() < 0.85 else ('exit',)
+                elif r < 0.93 and xfer is not None and not xfer.get('up'):
                     op = ('block',) if xfer['sent'] < xfer['total'] and rng.random() < 0.9 else ('exit',)
                 elif r < 0.95:
                     op = ('exit',)
@@ -298,7 +302,7 @@ def run_history(s, ctx, hseed, nsteps, force_zero_did=False, wrap=False):
                         s.fail({'site': 'read_data_by_identifier', 'history': hseed, 'step': step, 'dids': lst, 'input': ' ; '.join(trail[-12:]),
                                 'class': 'identifier 0x0000 through the default codec, all-zero value, zero padding tolerated' if zero_amb else 'written values cannot be read back',
                                 'observed': 'read failed', 'required': ','.join('%d=%s' % (d, hx(shadow.dids[d])) for d in lst)})
-            elif op[0] in ('wmem', 'rmem', 'download'):
+            elif op[0] in ('wmem', 'rmem', 'download', 'upload'):
                 reuse = mls and rng.random() < 0.5 and len(op) == 1
                 if reuse:
                     ml = rng.choice(mls)
@@ -343,6 +347,16 @@ def run_history(s, ctx, hseed, nsteps, force_zero_did=False, wrap=False):
                         if ok and r.service_data.memory_block != shadow.read(a, z):
                             s.fail({'site': 'read_memory_by_address', 'history': hseed, 'step': step, 'input': ' ; '.join(trail[-12:]), 'class': 'read back differs',
                                     'observed': r.service_data.memory_block.hex(), 'required': shadow.read(a, z).hex()})
+                elif op[0] == 'upload':
+                    desc = 'request_upload(a=%d s=%d af=%s mf=%s)' % (a, z, oi(af), oi(mf))
+                    line = 'k=xfer up=1 a=%d s=%d af=%s mf=%s dfi=0' % (a, z, oi(af), oi(mf))
+                    fn = lambda ml=ml: client.request_upload(ml, DataFormatIdentifier(0, 0))
+                    dump = lambda r: 'xfer %d' % r.service_data.max_length
+
+                    def post(ok, r, a=a, z=z):
+                        nonlocal xfer
+                        if ok:
+                            xfer = {'addr': a, 'total': z, 'sent': 0, 'seq': 1, 'buf': b'', 'up': True}
                 else:
                     desc = 'request_download(a=%d s=%d af=%s mf=%s)' % (a, z, oi(af), oi(mf))
                     line = 'k=xfer up=0 a=%d s=%d af=%s mf=%s dfi=0' % (a, z, oi(af), oi(mf))
@@ -370,6 +384,24 @@ def run_history(s, ctx, hseed, nsteps, force_zero_did=False, wrap=False):
                         xfer['seq'] = (xfer['seq'] + 1) % 256
                         if xfer['seq'] == 0:
                             s.count('block-sequence-counter wrapped 0xFF -> 0x00')
+            elif op[0] == 'pull':
+                seq = xfer['seq'] if rng.random() < 0.93 else (xfer['seq'] + 2) % 256
+                e = ('td', seq, None)
+                desc = 'transfer_data(%d)  [upload]' % seq
+                line = 'k=simple entry=%s' % hist.entry_str(e)
+                fn = lambda e=e: hist.invoke_entry(client, e)
+                dump = lambda r: dump_simple('td', r)
+
+                def post(ok, r):
+                    if ok:
+                        got = r.service_data.parameter_records or b''
+                        n = min(6, xfer['total'] - xfer['sent'])
+                        want = shadow.read(xfer['addr'] + xfer['sent'], n)
+                        if got != want:
+                            s.fail({'site': 'transfer_data (upload)', 'history': hseed, 'step': step, 'input': ' ; '.join(trail[-12:]), 'class': 'read back differs',
+                                    'observed': got.hex(), 'required': want.hex()})
+                        xfer['sent'] += n
+                        xfer['seq'] = (xfer['seq'] + 1) % 256
             elif op[0] == 'exit':
                 e = ('te', None)
                 desc = 'request_transfer_exit()'
@@ -380,7 +412,8 @@ def run_history(s, ctx, hseed, nsteps, force_zero_did=False, wrap=False):
                 def post(ok, r):
                     nonlocal xfer
                     if ok and xfer is not None:
-                        shadow.write(xfer['addr'], xfer['buf'])
+                        if not xfer.get('up'):
+                            shadow.write(xfer['addr'], xfer['buf'])
                         xfer = None
             else:
                 e = op[1]
@@ -427,10 +460,16 @@ def run_history(s, ctx, hseed, nsteps, force_zero_did=False, wrap=False):
                     shadow.write(a, frames[-1][1 + len(late['reply']) - 1:])
                 elif op[0] == 'download':
                     xfer = {'addr': a, 'total': z, 'sent': 0, 'seq': 1, 'buf': b''}
+                elif op[0] == 'upload':
+                    xfer = {'addr': a, 'total': z, 'sent': 0, 'seq': 1, 'buf': b'', 'up': True}
                 elif op[0] == 'block':
                     xfer['sent'] += len(blk); xfer['buf'] += blk; xfer['seq'] = (xfer['seq'] + 1) % 256
+                elif op[0] == 'pull':
+                    xfer['sent'] += min(6, xfer['total'] - xfer['sent']); xfer['seq'] = (xfer['seq'] + 1) % 256
                 elif op[0] == 'exit' and xfer is not None:
-                    shadow.write(xfer['addr'], xfer['buf']); xfer = None
+                    if not xfer.get('up'):
+                        shadow.write(xfer['addr'], xfer['buf'])
+                    xfer = None
                 s.count('late-reply:' + op[0])
             else:
                 post(got.startswith('ok'), r)
